@@ -109,12 +109,27 @@ func optsFor(prop string) GenOpts {
 	return o
 }
 
+// fileName draws the name of the fi-th source file: mostly fN.go, sometimes
+// with characters that identifiers may not hold or that tools tend to drop
+// when they derive identifiers from file names.
+func fileName(t *rapid.T, fi int) string {
+	switch uniform(t, "fname", 8) {
+	case 0:
+		return fmt.Sprintf("f%d-a.go", fi+1)
+	case 1:
+		return fmt.Sprintf("f%d.b.go", fi+1)
+	case 2:
+		return fmt.Sprintf("f%d_c.go", fi+1)
+	}
+	return fmt.Sprintf("f%d.go", fi+1)
+}
+
 // GenPackage draws a package of several files with several directives each.
 func GenPackage(t *rapid.T, o GenOpts, nfiles, perFile int) *PackageSpec {
 	p := &PackageSpec{}
 	n := 0
 	for fi := 0; fi < nfiles; fi++ {
-		f := &FileSpec{Name: fmt.Sprintf("f%d.go", fi+1), Header: "//go:build cff\n", Idx: fi, Decor: uniform(t, "decor", 8)}
+		f := &FileSpec{Name: fileName(t, fi), Header: "//go:build cff\n", Idx: fi, Decor: uniform(t, "decor", 8)}
 		switch uniform(t, "ctxalias", 5) {
 		case 0:
 			f.CtxAlias = "ctx2"
